@@ -36,7 +36,7 @@ func newWSHandler(host string, dial dialFunc, conn gkm.Gauge) http.Handler {
 			return
 		}
 
-		in, _, err := hj.Hijack()
+		in, brw, err := hj.Hijack()
 		if err != nil {
 			log.Printf("[ERROR] Hijack error for %s. %s", r.URL, err)
 			http.Error(w, "hijack error", http.StatusInternalServerError)
@@ -99,7 +99,9 @@ func newWSHandler(host string, dial dialFunc, conn gkm.Gauge) http.Handler {
 			errc <- err
 		}
 
-		go cp(out, in)
+		// brw may have buffered data which the client has sent right after
+		// the handshake request. Read from it instead of the connection.
+		go cp(out, brw)
 		go cp(in, out)
 		err = <-errc
 		if err != nil && err != io.EOF {
